@@ -270,6 +270,7 @@ fn e2e_shard(ctx: &Ctx, shard: usize, scripts: u64) -> Acc {
                 *acc.writers.entry(wname).or_default() += 1;
                 *acc.by_type.entry(format!("end-to-end/{}", leaf_kind(&leaves))).or_default() += 1;
                 let s = streams(&out.log);
+                acc.res.sample(|| J::obj(vec![("query", J::s(*q)), ("writer", J::s(*wname)), ("returned", J::s(format!("{:?}", leaves))), ("output", J::s(esc(&s.out[..s.out.len().min(200)])))]));
                 // the whole output is exactly one response
                 let r = decode_response(&s.out).and_then(|(toks, used)| {
                     if used != s.out.len() {
@@ -608,7 +609,9 @@ pub fn run(ctx: &Ctx) -> PropResult {
     res.cov("std_writer_included", cfg!(feature = "std"));
     res.cov("executions_by_type", J::Obj(by_type.into_iter().map(|(k, v)| (k, J::Int(v as i64))).collect()));
     res.cov("end_to_end_by_writer", J::Obj(writers.into_iter().map(|(k, v)| (k.to_string(), J::Int(v as i64))).collect()));
-    res.samples = vec![J::s("R:T4? returning (-128, 65535, \"x\\\"y\", NaN) -> -128,65535,\"x\"\"y\",9.91E+37\\n + flush"), J::s("f32 0x00000001 -> 0.000000000000000000000000000000000000000000001")];
+    res.samples.truncate(5);
+    let described: Vec<J> = vec![J::s("R:T4? returning (-128, 65535, \"x\\\"y\", NaN) -> -128,65535,\"x\"\"y\",9.91E+37\\n + flush"), J::s("f32 0x00000001 -> 0.000000000000000000000000000000000000000000001")];
+    res.samples.extend(described.into_iter().take(1));
     res.assumptions = vec![
         "finite floats are compared bit-exactly after parsing the response text with core's str::parse (independent of the Display algorithm the library uses); a sample is re-checked with exact rationals offline".into(),
     ];
